@@ -11,6 +11,7 @@ import Gpc.Driver.CaseMap
 import Gpc.Driver.TestFw
 import Gpc.Driver.Printf
 import Gpc.Driver.CaseFull
+import Gpc.Driver.FileIO
 open Gpc.Proto
 
 /-- state of the stateful models (one operation script at a time) -/
@@ -34,6 +35,7 @@ def dispatch (st : St) (toks : List String) : St × String :=
   | "tf" :: rest => (st, Gpc.Driver.tfStep rest)
   | "pf" :: rest => (st, Gpc.Driver.pfStep rest)
   | "cf" :: rest => (st, Gpc.Driver.cfStep rest)
+  | "fio" :: rest => (st, Gpc.Driver.fioStep rest)
   | "case" :: rest => (st, Gpc.Driver.caseStep rest)
   | "str" :: rest => let (a, o) := Gpc.Driver.strStep st.str rest; ({ st with str := a }, o)
   | _ => (st, "bad-op")
